@@ -196,7 +196,12 @@ def gen(rs: int, tier: str, index: int) -> dict:
     for ti in range(r.randint(1, 2)):
         sig = gen_signature(r, ti)
         name = f"c08_{ti}"
-        tasks.append({"name": name, "func": name, "source": source_for(name, sig), "sig": sig, "register_late": r.random() < 0.4})
+        late = r.random() < 0.4
+        # (a same-name shared task is declared only next to tasks that exist before the Receiver does: the Receiver caches signature
+        # and dependency graph per task *name*, so a name that first resolves to the shared task and later to a local one is served
+        # with the stale signature - seen, outside C08's quantifier, see DESIGN.md 15.6)
+        tasks.append({"name": name, "func": name, "source": source_for(name, sig), "sig": sig, "register_late": late,
+                      "decoy_shared": (not late) and r.random() < 0.3})
     tasks.append({"name": "ghost", "client_only": True, "ctx": False, "sync": False, "deps": [], "root": []})
     s["tasks"] = tasks
     for m in s["messages"]:
